@@ -15,6 +15,8 @@ open Drv.DataSet (parseInt keyOf lower bulks)
 structure St where
   m : List KV := []
   keys : List Bytes := []
+  /-- entries queued in the open apply event (log time, arguments), oldest first -/
+  pend : List (Int × List Bytes) := []
   deriving Inhabited
 
 def outUnit : Out Unit → String
@@ -40,8 +42,9 @@ def write (st : St) (ts : Int) (args : List Bytes) : St × String :=
       let pop (atTail : Bool) : St × String :=
         if emptyPre F st.m k then noLog "local:nil" else
         let (m', r) := lpop F st.m ts k atTail
-        -- an apply-time pop of an empty list hands a typed nil `[]byte` to the reply switch: an EMPTY bulk, not nil
-        queued m' (match r with | .ok (some v) => bulk v | .ok none => "bulk:-" | .error e => "err:" ++ e)
+        -- an apply-time pop of an empty list answers nil (it handed a typed nil `[]byte` to the reply switch, i.e. an
+        -- EMPTY bulk, before the fix listed in DESIGN §0.2)
+        queued m' (match r with | .ok (some v) => bulk v | .ok none => "nil" | .error e => "err:" ++ e)
       match lower name, rest with
       | "lpush", _ :: _ => push false
       | "rpush", _ :: _ => push true
@@ -103,9 +106,26 @@ def step (st : St) (line : String) : St × String :=
   | ["inv"] => (st, "ok")
   | ["dump"] => (st, dump st)
   | "w" :: ts :: b :: hexargs =>
-    if b != "1" then (st, "bad-op") else
+    if b != "1" ∧ b != "0" then (st, "bad-op") else
     match ts.toInt?, hexargs.mapM unhex with
-    | some t, some args => write st t args
+    | some t, some args =>
+      -- leader side: checked against the APPLIED state (entries still buffered in the open event are not seen)
+      let (stL, out) := write st t args
+      if out == "bad-op" then (st, "bad-op") else
+      let isQ := out.startsWith "queued => "
+      let status := if isQ then "queued" else (out.dropEnd 5).toString   -- strip " => -"
+      let pend := if isQ then st.pend ++ [(t, args)] else st.pend
+      let keys := if isQ then stL.keys else st.keys
+      if b == "0" then ({ st with pend := pend, keys := keys }, status) else
+      -- boundary: the event is applied entry by entry; an entry whose leader-side pre-check would now answer locally
+      -- (list emptied by an earlier entry of the same event) gets that reply from the apply path as well
+      let (m, replies) := pend.foldl (fun (acc : List KV × List String) (e : Int × List Bytes) =>
+        let (st1, o) := write { m := acc.1, keys := [] } e.1 e.2
+        let r := if o.startsWith "queued => " then (o.drop 10).toString
+                 else if o.startsWith "local:" then ((o.drop 6).dropEnd 5).toString
+                 else o
+        (st1.m, acc.2 ++ [r])) (st.m, [])
+      ({ m := m, keys := keys, pend := [] }, status ++ " => " ++ (if replies.isEmpty then "-" else " | ".intercalate replies))
     | _, _ => (st, "bad-op")
   | "r" :: hexargs =>
     match hexargs.mapM unhex with
